@@ -44,4 +44,58 @@ theorem decodeBits_subst (v v' : Nat) (c c' : UInt8) (hc : classify c = .bits v)
           refine .inr ⟨fiveBits u ++ A, B, by rw [hAB]; simp, by simp, ?_⟩
           simp [fiveBits_length]; omega
 
+theorem decodeBits_skips : ∀ (m rest : List UInt8), (∀ x ∈ m, classify x = .skip) →
+    decodeBits (m ++ rest) = decodeBits rest
+  | [], _, _ => rfl
+  | x :: m, rest, h => by
+    have hx : classify x = .skip := h x (by simp)
+    simp only [List.cons_append, decodeBits, hx]
+    exact decodeBits_skips m rest (fun y hy => h y (by simp [hy]))
+
+/-- **Two swapped neighbouring symbols change exactly their own ten bits** — neighbours in the
+sense of the symbol sequence: the characters `m` between them (dashes, ignored digits) contribute
+nothing. -/
+theorem decodeBits_swap (v1 v2 : Nat) (c1 c2 : UInt8) (h1 : classify c1 = .bits v1) (h2 : classify c2 = .bits v2)
+    (m : List UInt8) (hm : ∀ x ∈ m, classify x = .skip) :
+    ∀ (p q : List UInt8) (bits : List Bool), decodeBits (p ++ c1 :: (m ++ c2 :: q)) = .ok bits →
+      decodeBits (p ++ c2 :: (m ++ c1 :: q)) = .ok bits ∨
+      ∃ A B, bits = A ++ (fiveBits v1 ++ fiveBits v2) ++ B ∧
+        decodeBits (p ++ c2 :: (m ++ c1 :: q)) = .ok (A ++ (fiveBits v2 ++ fiveBits v1) ++ B)
+  | [], q, bits, h => by
+    simp only [List.nil_append] at h ⊢
+    rw [decodeBits, h1] at h
+    rw [decodeBits, h2]
+    simp only at h ⊢
+    rw [decodeBits_skips m _ hm] at h ⊢
+    rw [decodeBits, h2] at h
+    rw [decodeBits, h1]
+    simp only at h ⊢
+    cases hq : decodeBits q with
+    | error e => rw [hq] at h; cases h
+    | ok r =>
+      rw [hq] at h
+      simp only [Except.ok.injEq] at h
+      exact .inr ⟨[], r, by simpa using h.symm, by simp⟩
+  | x :: p, q, bits, h => by
+    simp only [List.cons_append] at h ⊢
+    rw [decodeBits] at h ⊢
+    cases hx : classify x with
+    | stop => rw [hx] at h; simp only at h ⊢; exact .inl h
+    | bad => rw [hx] at h; cases h
+    | skip =>
+      rw [hx] at h; simp only at h ⊢
+      exact decodeBits_swap v1 v2 c1 c2 h1 h2 m hm p q bits h
+    | bits u =>
+      rw [hx] at h; simp only at h ⊢
+      cases hr : decodeBits (p ++ c1 :: (m ++ c2 :: q)) with
+      | error e => rw [hr] at h; cases h
+      | ok r =>
+        rw [hr] at h
+        simp only [Except.ok.injEq] at h
+        subst h
+        rcases decodeBits_swap v1 v2 c1 c2 h1 h2 m hm p q r hr with h1' | ⟨A, B, hAB, h2'⟩
+        · rw [h1']; exact .inl rfl
+        · rw [h2']
+          exact .inr ⟨fiveBits u ++ A, B, by rw [hAB]; simp, by simp⟩
+
 end KsiVerif.Pub
